@@ -894,4 +894,48 @@ theorem handleConstraint_none_iff (n : Nat) (params : List Rat) (mask : Option (
               simp [h1, h2, h3, h5, h6, this]
           · simp [h1, h2, h3, h5]
 
+/-! ## `fit_binding_times` in front of the model -/
+
+theorem fitBindingTimes_ok (nComp : Nat) (excl : Bool) (om disc : Option Bool) (tracks : List Track) (c : FitCall)
+    (h : fitBindingTimes nComp excl om disc tracks = .ok c) :
+    tracks ≠ [] ∧ (nComp = 1 ∨ nComp = 2) ∧ c.rows ≠ []
+    ∧ extract excl (om.getD true) tracks = some (c.rows, c.removedZeros)
+    ∧ c.observedMin = om.getD true ∧ c.stepHanded = disc.getD false
+    ∧ c.warnObservedMin = om.isNone ∧ c.warnDiscrete = disc.isNone := by
+  unfold fitBindingTimes at h
+  split at h
+  · cases h
+  · rename_i hne
+    simp only at h
+    split at h
+    · cases h
+    · rename_i hn
+      split at h
+      · cases h
+      · split at h
+        · cases h
+        · rename_i rows removed hext
+          split at h
+          · cases h
+          · rename_i hrows
+            simp only [Except.ok.injEq] at h
+            subst h
+            exact ⟨hne, by omega, hrows, hext, rfl, rfl, rfl, rfl⟩
+
+theorem fitBindingTimes_defaults (nComp : Nat) (excl : Bool) (tracks : List Track) :
+    fitBindingTimes nComp excl none none tracks
+      = (fitBindingTimes nComp excl (some true) (some false) tracks).map
+          fun c => { c with warnObservedMin := true, warnDiscrete := true } := by
+  unfold fitBindingTimes
+  simp only [Option.getD_none, Option.getD_some, Option.isNone_none, Option.isNone_some]
+  split
+  · rfl
+  · split
+    · rfl
+    · split
+      · rfl
+      · split
+        · rfl
+        · split <;> rfl
+
 end Verif.C15
